@@ -1,6 +1,8 @@
 import GrmVerif.Lemmas.RecFirst
 import GrmVerif.Lemmas.RecLive
 import GrmVerif.Props.C05
+import GrmVerif.Lemmas.CpctRun
+import GrmVerif.Lemmas.CpctEx
 /-!
 # C07 — error recovery always progresses and the error list matches the outcome
 
@@ -360,6 +362,106 @@ theorem recovering_parse_result (G : Grammar) (A : Automaton) (hc : Cert.check G
   · have := spaced_length_bound K (by omega) w.length errs 0 hs (fun e he => ⟨Nat.zero_le _, hn2 e he⟩)
     simpa using this
 
+/-! ## Capstone: the modelled recoverer satisfies the hypotheses of liveness and shape
+
+`Cpct.cpctRecover` (`Model/Cpct.lean`) is the model of `CPCTPlus::recover` (`SearchImpl.recoverImpl`,
+proved in C06) seen through the interface of the recovering driver; `Cpct.cpctRecoverAt` is its
+restriction to the configurations at which `Parser::lr` calls `recover` (`Cpct.errCfg`; the restriction
+cannot be observed in a run: `C05.cpct_restriction_invisible`). The recoverer is a function — total —
+whatever its search budget `sfuel`: a search that runs out of budget reports nothing, like the real one
+that runs out of time. A modelled PANIC of the recoverer also counts as "reports nothing"
+(`Cpct.cpctOutcome` tells the cases apart); that the modelled recoverer never panics is not proved, it
+is what the per-error tie `Mr`/`Ir` of the check observes. -/
+
+section Capstone
+open Cpct SearchImpl RankImpl
+
+/-- **(c) The modelled recoverer is a well-behaved recoverer.** On an automaton that passes
+`Cert.check`, with `stateActionsExactB` (decidable), every token costing at least 1 and
+`PARSE_AT_LEAST = E.N ≥ 1`, for an input of real tokens, any `HashSet` order, `%avoid_insert` set,
+lexeme offsets, window and search budget: `cpctRecoverAt` is `ContinuesFromValid` (it continues from
+`applySeq` of its first sequence, which satisfies `validSeq … PARSE_AT_LEAST` and inserts only tokens
+of the grammar), hence `RecovererOK … PARSE_AT_LEAST` (never moves backwards; from where it leaves the
+parser a plain parse runs `PARSE_AT_LEAST` lexemes or accepts) and hands back path stacks; and the
+same holds of the unrestricted `cpctRecover` at every configuration at which `Parser::lr` calls
+`recover`. -/
+theorem cpct_recoverer_ok (E : Env) (hc : Cert.check E.G E.A = true)
+    (hsa : stateActionsExactB E.G E.A = true) (hcost : ∀ t, 1 ≤ E.cost t) (hN : 1 ≤ E.N)
+    (hs : List Seq → List Seq) (hhs : HashSetLike hs) (avoid : Nat → Bool) (lexStart : Nat → Nat)
+    (win sfuel : Nat) (hw : Cert.InputOk E.G E.w) :
+    ContinuesFromValid E.G E.A E.w E.N (cpctRecoverAt E hs avoid lexStart win sfuel) ∧
+    RecovererOK E.G E.A E.w E.N (cpctRecoverAt E hs avoid lexStart win sfuel) ∧
+    (∀ c c' rs, Term.IsPath E.A c.stack → cpctRecoverAt E hs avoid lexStart win sfuel c = some (c', rs) →
+      rs ≠ [] → Term.IsPath E.A c'.stack) ∧
+    (∀ c c' rs, errCfg E.G E.A E.w c = true → cpctRecover E hs avoid lexStart win sfuel c = some (c', rs) →
+      c.pos ≤ c'.pos ∧ Runs E.G E.A E.w E.N c' ∧ (Term.IsPath E.A c.stack → Term.IsPath E.A c'.stack)) := by
+  have hT := tableOK_of_cert hc hsa hcost hN
+  have hv := cpctAt_continuesFromValid (avoid := avoid) (lexStart := lexStart) (win := win)
+    (fuel := sfuel) hT hhs
+  obtain ⟨h1, h2⟩ := valid_recoverer_ok E.G E.A hc E.w hw E.N _ hv
+  refine ⟨hv, h1, h2, ?_⟩
+  intro c c' rs he h
+  rw [← cpctAt_of_errCfg he] at h
+  obtain ⟨out, _, hne, rfl⟩ := cpct_some_unpack (cpctAt_some h).2
+  have hne' : eraseAll out ≠ [] := by
+    intro e; simp only [eraseAll, List.map_eq_nil_iff] at e; exact hne e
+  obtain ⟨ha, hb⟩ := h1 c c' _ h hne'
+  exact ⟨ha, hb, fun hp => h2 c c' _ hp h hne'⟩
+
+/-- **Capstone: the model of the whole recovering parser returns.** `recovering_parse_returns` for
+`recover := cpctRecover …`: on an automaton that passes `Cert.check` and the termination certificate
+`Term.termCheckAdj`, with `stateActionsExactB`, costs ≥ 1 and `PARSE_AT_LEAST ≥ 1`, for every input of
+real tokens, `HashSet` order, `%avoid_insert` set, window and search budget, the instrumented driver
+answers: there are a threshold `ff0` for the fuel of `feed` and a result `r` such that every `ff ≥ ff0`
+and every loop fuel `≥ 2·|w| + 2` give `some r`. Hypotheses on the table and the costs only. -/
+theorem cpct_recovering_parse_returns (E : Env) (hc : Cert.check E.G E.A = true) (M : Nat)
+    (ht : Term.termCheckAdj E.G E.A M = true) (hsa : stateActionsExactB E.G E.A = true)
+    (hcost : ∀ t, 1 ≤ E.cost t) (hN : 1 ≤ E.N)
+    (hs : List Seq → List Seq) (hhs : HashSetLike hs) (avoid : Nat → Bool) (lexStart : Nat → Nat)
+    (win sfuel : Nat) (hw : Cert.InputOk E.G E.w) :
+    ∃ ff0 r, ∀ ff fuel, ff0 ≤ ff → 2 * E.w.length + 2 ≤ fuel →
+      recRunO E.G E.A E.w (cpctRecover E hs avoid lexStart win sfuel) ff fuel ⟨[E.A.start], 0⟩ [] = some r := by
+  have hT := tableOK_of_cert hc hsa hcost hN
+  obtain ⟨_, h1, h2, _⟩ := cpct_recoverer_ok E hc hsa hcost hN hs hhs avoid lexStart win sfuel hw
+  obtain ⟨ff0, r, h⟩ := recovering_parse_returns E.G E.A hc M ht E.w hw E.N hN _ h1 h2
+  refine ⟨ff0, r, fun ff fuel hff hfuel => ?_⟩
+  rw [recRunO_cpct_guard hT hhs ff fuel _ [] (Nat.zero_le _)]
+  exact h ff fuel hff hfuel
+
+/-- **Capstone: the model of the whole recovering parser has one result, of the documented shape.**
+`recovering_parse_result` for `recover := cpctRecover …` and `K = PARSE_AT_LEAST`; hypotheses as in
+`cpct_recovering_parse_returns`. There is a pair `(v, errs)` such that the run returns it for all
+large enough fuels (`2·|w| + 2` iterations suffice) and never anything else; the errors are at least
+`PARSE_AT_LEAST` lexemes apart in strictly increasing position, all within the input, at most
+`|w|/PARSE_AT_LEAST + 1` of them; every error but possibly the last carries a repair sequence; a value
+is returned iff every error does, and without a value the last error carries none. -/
+theorem cpct_recovering_parse_result (E : Env) (hc : Cert.check E.G E.A = true) (M : Nat)
+    (ht : Term.termCheckAdj E.G E.A M = true) (hsa : stateActionsExactB E.G E.A = true)
+    (hcost : ∀ t, 1 ≤ E.cost t) (hN : 1 ≤ E.N)
+    (hs : List Seq → List Seq) (hhs : HashSetLike hs) (avoid : Nat → Bool) (lexStart : Nat → Nat)
+    (win sfuel : Nat) (hw : Cert.InputOk E.G E.w) :
+    ∃ v errs,
+      (∃ ff0, ∀ ff fuel, ff0 ≤ ff → 2 * E.w.length + 2 ≤ fuel →
+        recRunO E.G E.A E.w (cpctRecover E hs avoid lexStart win sfuel) ff fuel ⟨[E.A.start], 0⟩ [] =
+          some (v, errs)) ∧
+      (∀ ff fuel r, recRunO E.G E.A E.w (cpctRecover E hs avoid lexStart win sfuel) ff fuel
+        ⟨[E.A.start], 0⟩ [] = some r → r = (v, errs)) ∧
+      Spaced E.N errs ∧ (∀ e ∈ errs, e.pos ≤ E.w.length) ∧ errs.length * E.N ≤ E.w.length + E.N ∧
+      AllButLastRepaired errs ∧
+      (v = true ↔ ∀ e ∈ errs, e.repairs ≠ []) ∧
+      (v = false → ∃ e, errs.getLast? = some e ∧ e.repairs = []) := by
+  have hT := tableOK_of_cert hc hsa hcost hN
+  obtain ⟨_, h1, h2, _⟩ := cpct_recoverer_ok E hc hsa hcost hN hs hhs avoid lexStart win sfuel hw
+  obtain ⟨v, errs, ⟨ff0, ha⟩, hb, hrest⟩ := recovering_parse_result E.G E.A hc M ht E.w hw E.N hN _ h1 h2
+  have heq : ∀ ff fuel, recRunO E.G E.A E.w (cpctRecover E hs avoid lexStart win sfuel) ff fuel ⟨[E.A.start], 0⟩ [] =
+      recRunO E.G E.A E.w (cpctRecoverAt E hs avoid lexStart win sfuel) ff fuel ⟨[E.A.start], 0⟩ [] :=
+    fun ff fuel => recRunO_cpct_guard hT hhs ff fuel _ [] (Nat.zero_le _)
+  refine ⟨v, errs, ⟨ff0, fun ff fuel hff hfuel => ?_⟩, fun ff fuel r hr => ?_, hrest⟩
+  · rw [heq]; exact ha ff fuel hff hfuel
+  · rw [heq] at hr; exact hb ff fuel r hr
+
+end Capstone
+
 /-! ### tests: the hypotheses are satisfiable (non-vacuity)
 
 `^ : S; S : 'a' 'b';` (tokens `a` = 0, `b` = 1, end of input = 2) with its LR(0) automaton and table,
@@ -401,5 +503,34 @@ example : summary (recRunO exG exA [0] (recoverBy exG exA [0] 3 exCands) FUEL 4 
 example : summary (recRunO exG exA [0] (recoverBy exG exA [0] 3 exCands) FUEL 2 ⟨[0], 0⟩ []) = none := by decide
 example : summary (recRunO exG exA [1, 0, 1] (recoverBy exG exA [1, 0, 1] 3 exCands) FUEL 8 ⟨[0], 0⟩ []) = some (true, [(0, 1)]) := by decide
 example : summary (recRunO exG exA [1, 1] (recoverBy exG exA [1, 1] 3 exCands) FUEL 6 ⟨[0], 0⟩ []) = some (false, [(0, 0)]) := by decide
+
+
+/-! ### tests for the capstone (`Lemmas/CpctEx.lean`: the certified merged LALR table of
+`S: x A c | y A d | x B f | y B g; A: a; B: a e` with its `state_actions` view; input `x a d`) -/
+
+section CapstoneTests
+open Cpct SearchImpl RankImpl C05
+
+example : Cert.check exG2 exA3 = true := (wholeRunCert_unpack ex3_cert).1
+example : Term.termCheckAdj exG2 exA3 20 = true := by decide
+/-- the modelled recoverer satisfies the hypotheses of liveness on this instance, from the theorem -/
+example : RecovererOK exG2 exA3 [0, 2, 4] 3 (cpctRecoverAt exE dedup (fun _ => false) (fun i => 3 * i + 1) 250 200) :=
+  (cpct_recoverer_ok exE (wholeRunCert_unpack ex3_cert).1 ex3_sa ex3_cost (by decide) dedup hashSetLike_dedup
+    (fun _ => false) (fun i => 3 * i + 1) 250 200 ex3_inputOk).2.1
+/-- the parse returns (from the theorem), within `2·|w| + 2 = 8` iterations … -/
+example : ∃ ff0 r, ∀ ff fuel, ff0 ≤ ff → 8 ≤ fuel →
+    recRunO exG2 exA3 [0, 2, 4] exRec ff fuel ⟨[0], 0⟩ [] = some r :=
+  cpct_recovering_parse_returns exE (wholeRunCert_unpack ex3_cert).1 20 (by decide) ex3_sa ex3_cost (by decide) dedup
+    hashSetLike_dedup (fun _ => false) (fun i => 3 * i + 1) 250 200 ex3_inputOk
+/-- … and by evaluation: one error at `d`, repaired, a value; `none` with too few iterations -/
+example : recRunO exG2 exA3 [0, 2, 4] exRec FUEL 8 ⟨[0], 0⟩ [] = some (true, [⟨2, [[.insert 3, .delete]]⟩]) := by
+  decide +kernel
+example : recRunO exG2 exA3 [0, 2, 4] exRec FUEL 3 ⟨[0], 0⟩ [] = none := by decide +kernel
+/-- a search budget that is too small: the recoverer reports nothing, the parse still returns — without
+a value, its last error unrepaired -/
+example : recRunO exG2 exA3 [0, 2, 4] (cpctRecover exE dedup (fun _ => false) (fun i => 3 * i + 1) 250 3) FUEL 8
+    ⟨[0], 0⟩ [] = some (false, [⟨2, []⟩]) := by decide +kernel
+
+end CapstoneTests
 
 end GrmVerif.C07
